@@ -636,6 +636,8 @@ func solveVC(vc *VC, idx int, secs int, mode string) {
 	}
 }
 
+var reachLimit int
+
 func solveAll(vcs []*VC, secs int, mode string, par int) {
 	var wg sync.WaitGroup
 	sem := make(chan struct{}, par)
@@ -649,7 +651,11 @@ func solveAll(vcs []*VC, secs int, mode string, par int) {
 			defer wg.Done()
 			defer func() { <-sem }()
 			if vc.ExpectSat {
-				solveVC(vc, i, 2, "quick1")
+				lim := 2
+				if vc.Kind == "reach" && reachLimit > 0 {
+					lim = reachLimit
+				}
+				solveVC(vc, i, lim, "quick1")
 				return
 			}
 			if vc.Known {
